@@ -558,6 +558,37 @@ pub fn generate(seed: u64, prop_name: &str) -> PoolScenario {
         sk.extend(ops.drain(..).take(40));
         ops = sk;
     }
+    // C12 planted shape "a cell that one pooled transaction spends and another only references is
+    // spent on the chain by a third transaction": both pooled transactions must go (one run in eight of
+    // the plain C12 runs, not combined with the shape above)
+    if prop == "C12" && !clean_detach && !reopen && !Rng::new(seed ^ 0xC12_ED6E).chance(1, 6) && Rng::new(seed ^ 0xC12_DE9A).chance(1, 8) {
+        let mut rp = Rng::new(seed ^ 0xC12_DE9B);
+        let a = txs.len();
+        let g0 = rp.idx(g);
+        let mut g1 = rp.idx(g);
+        if g1 == g0 {
+            g1 = (g0 + 1) % g;
+        }
+        // a: creates the cell; y: references it as cell dep; x and x2: two different spenders of it
+        txs.push(TxSpec { inputs: vec![InRef::G(g0)], outputs: 2, fee: 2_000 + rp.range(0, 2_000), dep: None, salt: rp.below(1 << 30), hdep: None, since: None });
+        txs.push(TxSpec { inputs: vec![InRef::G(g1)], outputs: 1, fee: 2_000 + rp.range(0, 2_000), dep: Some(InRef::T(a, 0)), salt: rp.below(1 << 30), hdep: None, since: None });
+        txs.push(TxSpec { inputs: vec![InRef::T(a, 0)], outputs: 1, fee: 6_000 + rp.range(0, 2_000), dep: None, salt: rp.below(1 << 30), hdep: None, since: None });
+        txs.push(TxSpec { inputs: vec![InRef::T(a, 0)], outputs: 1, fee: 1_000 + rp.range(0, 500), dep: None, salt: rp.below(1 << 30), hdep: None, since: None });
+        let mut sk = vec![POp::Submit { t: a, remote: false }, POp::Quiesce];
+        sk.push(POp::Foreign { t: a, seed: rp.below(1 << 40) });
+        sk.push(POp::Quiesce);
+        sk.push(POp::Submit { t: a + 1, remote: false });
+        sk.push(POp::Quiesce);
+        sk.push(POp::Submit { t: a + 2, remote: false });
+        sk.push(POp::Quiesce);
+        // the second spender is refused by the pool (it pays less than the first) but the other miner has it
+        sk.push(POp::Submit { t: a + 3, remote: false });
+        sk.push(POp::Quiesce);
+        sk.push(POp::Foreign { t: a + 3, seed: rp.below(1 << 40) });
+        sk.push(POp::Quiesce);
+        sk.extend(ops.drain(..).take(40));
+        ops = sk;
+    }
     if timelock_shape {
         // chain A: the genesis epoch mined quickly, one slow block ends it (A's next epoch gets half the
         // difficulty), a few blocks into epoch 1; transaction 0, locked until the earliest position the
